@@ -56,8 +56,17 @@ var c18Pool5 = []c18Res{
 	{"B", t2, "experiment", "h1", s1, map[string]float64{"u1": 22}},
 }
 
+// c18Pool6: one benchmark measured in FOUR units: four comparison series are returned, in an order that must not
+// depend on how the table map is walked.
+var c18Pool6 = []c18Res{
+	{"A", t1, "baseline", "h1", s1, map[string]float64{"u1": 10, "u2": 20, "u3": 30, "u4": 40}},
+	{"A", t1, "experiment", "h1", s1, map[string]float64{"u1": 11, "u2": 22, "u3": 33, "u4": 44}},
+}
+
 func c18MapPool(i int) []c18Res {
 	switch i {
+	case 5:
+		return c18Pool6
 	case 0:
 		return c18Pool[:9]
 	case 1:
@@ -106,7 +115,7 @@ func c18MapOrders(c *mc.Check) {
 		}
 		return ""
 	}
-	f := c.Family("map-iteration-orders", "benchseries rewritten mechanically so that every range over a map asks the explorer for the order of the keys: five pools (9 results incl. a later experiment without a baseline; 10 results with multi-sample cells, a point measured twice and two hashes sharing a baseline; 4 results in which a single benchmark feeds a point measured with and, later, without a baseline; three experiments on one point, the middle one without a baseline; two benchmarks each measured with a baseline first and without later) × {replace, combine}: one Builder filled in a fixed order and asked twice; deviation-bounded depth-first search over ALL orders in which the maps (tables, trials, tests per trial, residues, key sets) may be iterated, a deviation being any pick other than the first remaining key. Every execution's answers (samples, dates, hash pairs, bootstrap summaries) must equal the default order's, and match the set-semantics reference; non-trivial = executions with ≥1 deviation", replay)
+	f := c.Family("map-iteration-orders", "benchseries rewritten mechanically so that every range over a map asks the explorer for the order of the keys: six pools (one benchmark in four units — the ORDER of the returned series is compared too; 9 results incl. a later experiment without a baseline; 10 results with multi-sample cells, a point measured twice and two hashes sharing a baseline; 4 results in which a single benchmark feeds a point measured with and, later, without a baseline; three experiments on one point, the middle one without a baseline; two benchmarks each measured with a baseline first and without later) × {replace, combine}: one Builder filled in a fixed order and asked twice; deviation-bounded depth-first search over ALL orders in which the maps (tables, trials, tests per trial, residues, key sets) may be iterated, a deviation being any pick other than the first remaining key. Every execution's answers (samples, dates, hash pairs, bootstrap summaries) must equal the default order's, and match the set-semantics reference; non-trivial = executions with ≥1 deviation", replay)
 	if c.Replaying() {
 		return
 	}
@@ -119,7 +128,7 @@ func c18MapOrders(c *mc.Check) {
 	f.Bounds["deviation_bound"] = bound
 	f.Bounds["shard"] = fmt.Sprintf("%d/%d", shard, nshards)
 	maxPoints := 0
-	for pi := 0; pi < 5; pi++ {
+	for pi := 0; pi < 6; pi++ {
 		pool := c18MapPool(pi)
 		for _, dupe := range []int{DUPE_REPLACE, DUPE_COMBINE} {
 			want := refSeries(pool, dupe)
